@@ -582,6 +582,10 @@ def gen_retry(r, n, tier):
     for mn in specials:
         for mx in specials:
             yield f"retry {dur_tok(mn)} {dur_tok(mx)} fffdfrfffffff"
+    # long runs of consecutive failures (counters that wrap at 2^8, 2^16; shifts that overflow at 32, 64)
+    for mn, mx in ((10**6, 8 * 10**6), (10**9, 60 * 10**9), (1, dmax), (1, 2**40), (3, 3 * 2**70), (10**6, 10**6)):
+        for k in (70, 300, 66000 if tier == "thorough" else 600):
+            yield f"retry {dur_tok(mn)} {dur_tok(mx)} {'f' * k}d{'f' * 3}r{'f' * 3}"
     for _ in range(n):
         if r.chance(1, 8):
             mn, mx = r.pick(specials), r.pick(specials)
@@ -1160,6 +1164,10 @@ def gen_cl_enc(r, n, tier):
                 for fr in ("t", "r"):
                     yield f"cl {fr} d000 q16 m0 N,E,R0.a.{kind}.7.50.{start}.{cnt},A60"
                 yield f"cl t d000 q16 m0 N,E,Q0.a.{kind}.7.50.{start}.{cnt},A60"
+    # two connections of one channel: the transaction id sequence continues after a reconnect
+    for ev in ("Xe", "Xf", "X" + hx(bytes([0, 0, 0, 1, 0, 3, 1, 1, 0]))):
+        yield f"cl t d000 q16 m0 N,E,R0.a.rh.1.50.0.1,{ev},N,R0.b.rh.1.50.0.1,A60,R0.c.rh.1.50.0.1,A60"
+    yield "cl t d000 q16 m1 N,E,R0.a.rh.1.50.0.1,A50,N,R0.b.rh.1.50.0.1,A60"
     for kind, args in (("wc", "9.1"), ("wc", "65535.0"), ("wr", "9.4660"), ("wr", "65535.65535")):
         for fr in ("t", "r"):
             yield f"cl {fr} d000 q16 m0 N,E,R0.a.{kind}.7.50.{args},A60"
